@@ -18,7 +18,7 @@ PID = "C10"
 MODULE = "Check.C10"
 VERDICT = "verdict_C10"
 CLASS_BITS = {16: "K_open_then_scan"}
-NCASES = (40, 1200)
+NCASES = (100, 1200)
 RULE = ("generator H (gen/histgen.py) recast as scan + notifications: a 5-file virtual workspace whose first versions are the "
         "on-disk texts analysed scan-style (no clean-up) in a random order; a target document F (test module or conftest.py) "
         "receives didOpen with a structurally edited buffer either AFTER the scan visited F (scan-then-open), or BEFORE "
